@@ -6,6 +6,7 @@ Every model states the *library's* contract, nothing about quantem:
 * ``ndarray.reshape`` in C order when every old axis is kept or split into two new axes (a, b) with a*b = old length:
   ``new[.., i, j, ..] = old[.., i*b + j, ..]``  (the size condition is emitted as a proof obligation, not assumed);
 * ``np.sum(x, axis=axes)`` = iterated Σ over the listed axes (Σ-terms, bodies normalised so that equal summands give equal terms);
+  an explicit ``dtype=`` is recorded as a ghost fact "accumulator possibly narrower than the default" (``ctx.ghost['c06_inexact']``);
 * ``np.pad(x, widths, mode="constant")``: ``out[i] = x[i - before]`` inside, 0 outside, length ``before + n + after``;
   other modes: the interior only (border values unspecified);
 * ``np.floor / np.ceil / np.prod / np.isrealobj`` on scalars / short lists;
@@ -354,9 +355,14 @@ def install(reg):
     def m_sum(interp, x, axis=None, **kw):
         if not isinstance(x, SymArr):
             return interp.native(np.sum, x, axis=axis, **kw)
-        extra = {k: v for k, v in kw.items() if v is not None and k not in ("keepdims",)}
+        extra = {k: v for k, v in kw.items() if v is not None and k not in ("keepdims", "dtype")}
         if extra or kw.get("keepdims"):
-            raise OutOfSubset(f"np.sum with {sorted(kw)} on a symbolic array (dtype effects are outside A1/A2)")
+            raise OutOfSubset(f"np.sum with {sorted(kw)} on a symbolic array")
+        if kw.get("dtype") is not None:
+            # numpy: without dtype= integer input narrower than the platform integer is accumulated in the platform integer;
+            # with dtype= the accumulator (and result) has exactly that type.  The element type of the input is arbitrary here
+            # (any of the property's dtypes), so the sum is exact (A2) only for the default accumulator: record the ghost fact.
+            interp.ctx.ghost.setdefault("c06_inexact", []).append("np.sum(dtype=...) accumulates in the given dtype, which may be narrower than the default accumulator")
         axes = _axes_tuple(axis, x.ndim)
         axes = _check_axes(axes, x.ndim, "np.sum")
         if len(set(axes)) != len(axes):
